@@ -287,3 +287,26 @@ def decide(log, verdict, key, replay=None, sampler=None, candidates=(), nrandom=
     ok = log.decide(verdict, key=key, replay=replay, sampler=sampler, candidates=list(candidates), nrandom=nrandom)
     seen[key] = "violation" if len(log.violations) > nv else "inconclusive"
     return ok
+
+
+def prove_zero_pt(expr, what, point, timeout_ms=20000):
+    """prove_zero with a shortcut on the sat side: a residual whose normal form is not the zero polynomial is first tried with
+    the inputs of `point` (name -> rational) pinned, where the query is a low-degree polynomial in the remaining atoms and z3
+    answers at once (nlsat can run far beyond its timeout on the unpinned high-degree residual).  A model of the pinned query is
+    a model of the original one; `unsat` of the pinned query proves nothing and the full query is asked."""
+    from symx.solver import prove_zero, numerators
+    from symx import poly as P
+
+    if all(not n.reduce().t for n in numerators(expr)):
+        return prove_zero(expr, what, timeout_ms=timeout_ms)
+    n0 = len(ctx.domain)
+    try:
+        for name, val in point.items():
+            if name in P.INDEX:
+                assume(SR.var(name) - val, "==0")
+        v = prove_zero(expr, what, timeout_ms=timeout_ms)
+    finally:
+        del ctx.domain[n0:]
+    if v.status == "sat":
+        return v
+    return prove_zero(expr, what, timeout_ms=timeout_ms)
